@@ -33,8 +33,11 @@ pub struct SyntaxNode<S: Syntax, D: 'static = ()> {
     data: NonNull<NodeData<S, D>>,
 }
 
-unsafe impl<S: Syntax, D: 'static> Send for SyntaxNode<S, D> {}
-unsafe impl<S: Syntax, D: 'static> Sync for SyntaxNode<S, D> {}
+// Other threads can obtain `Arc<D>` clones of the node data through any handle into the tree, so the data must be
+// both `Send` and `Sync` for handles to be sent or shared. The attached resolver is type-erased; the constructors
+// that store one require it to be `Send + Sync`.
+unsafe impl<S: Syntax, D: Send + Sync + 'static> Send for SyntaxNode<S, D> {}
+unsafe impl<S: Syntax, D: Send + Sync + 'static> Sync for SyntaxNode<S, D> {}
 
 impl<S: Syntax, D> SyntaxNode<S, D> {
     /// Writes this node's [`Debug`](fmt::Debug) representation into the given `target`.
@@ -348,7 +351,10 @@ impl<S: Syntax, D> SyntaxNode<S, D> {
     /// assert_eq!(root.text(), "content");
     /// ```
     #[inline]
-    pub fn new_root_with_resolver(green: GreenNode, resolver: impl Resolver<TokenKey> + 'static) -> ResolvedNode<S, D> {
+    pub fn new_root_with_resolver(
+        green: GreenNode,
+        resolver: impl Resolver<TokenKey> + Send + Sync + 'static,
+    ) -> ResolvedNode<S, D> {
         let ptr: StdArc<dyn Resolver<TokenKey>> = StdArc::new(resolver);
         ResolvedNode {
             syntax: SyntaxNode::make_new_root(green, Some(ptr)),
